@@ -249,7 +249,9 @@ def run(ctx, ck) -> None:
     ok = False
     why = 'get_coverage vanished'
     if isinstance(cov, ast.FunctionDef):
-        rets4 = [p for p in function_paths(cov) if p.exit == 'return']
+        from ..paths import paths_at_defaults
+
+        rets4 = [p for p in paths_at_defaults(cov, 2) if p.exit == 'return']
         if len(rets4) == 1:
             e = path_env(rets4[0])
             C = ('var', cov.args.args[0].arg)
